@@ -17,7 +17,9 @@ def run(tier):
                 ("sliding", dict(size=4, slide=2, moo=1, al=1, maxts=5, maxev=4, cap=3000)),
                 ("tumbling", dict(size=2, moo=2, al=0, maxts=5, maxev=4, cap=2000))]
         free = [("tumbling", dict(size=2, moo=1, al=2), 60, 40), ("sliding", dict(size=4, slide=2, moo=2, al=2), 40, 40),
-                ("tumbling", dict(size=3, moo=0, al=0), 30, 40)]
+                ("tumbling", dict(size=3, moo=0, al=0), 30, 40),
+                # long allowances with many late rows: several late rows for one fired window, with newer windows firing in between
+                ("tumbling", dict(size=2, moo=0, al=6, latep=0.3), 40, 40), ("sliding", dict(size=4, slide=2, moo=1, al=6, latep=0.3), 40, 40)]
     else:
         plan = [("tumbling", dict(size=2, moo=0, al=1, maxts=6, maxev=5, cap=40000)),
                 ("tumbling", dict(size=2, moo=1, al=2, maxts=6, maxev=5, cap=40000)),
@@ -26,7 +28,8 @@ def run(tier):
                 ("sliding", dict(size=3, slide=2, moo=0, al=3, maxts=6, maxev=4)),
                 ("tumbling", dict(size=2, moo=2, al=0, maxts=6, maxev=5, cap=20000))]
         free = [("tumbling", dict(size=2, moo=1, al=2), 400, 60), ("sliding", dict(size=4, slide=2, moo=2, al=2), 300, 60),
-                ("tumbling", dict(size=3, moo=0, al=0), 200, 60), ("sliding", dict(size=3, slide=1, moo=1, al=0), 200, 50)]
+                ("tumbling", dict(size=3, moo=0, al=0), 200, 60), ("sliding", dict(size=3, slide=1, moo=1, al=0), 200, 50),
+                ("tumbling", dict(size=2, moo=0, al=6, latep=0.3), 300, 60), ("sliding", dict(size=4, slide=2, moo=1, al=6, latep=0.3), 300, 60), ("sliding", dict(size=3, slide=1, moo=0, al=4, latep=0.25), 200, 50)]
     extra = [("tumbling", dict(size=2, moo=1, al=0, maxts=6, maxev=4, chancap=1)), ("sliding", dict(size=4, slide=2, moo=1, al=0, maxts=6, maxev=4, chancap=1))]
     if tier != "quick":
         extra += [("tumbling", dict(size=2, moo=0, al=1, maxts=6, maxev=4, chancap=1)), ("session", dict(size=2, moo=1, al=0, maxts=5, maxev=4, chancap=1))]
